@@ -112,6 +112,7 @@ Section WithOracles.
 Variable truth : N -> N -> option lstats.
 Variable csize : N -> N.
 Variable chash : langs -> N.
+Variable keyable : path -> bool.
 (* the assumption on compute_config_hash: different [languages] tables have different hashes *)
 Hypothesis chash_inj : forall a b, chash a = chash b -> a = b.
 
@@ -164,30 +165,43 @@ Fixpoint ref_out (cfg : langs) (fs : list (path * file)) : list (path * lstats) 
 Lemma process_spec : forall cfg now es p f,
   (forall e, lookup p es = Some e -> entry_ok cfg p e) ->
   (forall e, lookup p es = Some e -> metadata_matches e (f_mtime f) (csize (f_cid f)) = true -> ce_hash e = f_cid f) ->
-  fst (process truth csize cfg now es (p, f)) = ref_one cfg (p, f) /\
-  (snd (process truth csize cfg now es (p, f)) = es \/
+  fst (process truth csize keyable cfg now es (p, f)) = ref_one cfg (p, f) /\
+  (snd (process truth csize keyable cfg now es (p, f)) = es \/
    exists l s, lang_of cfg p = Some l /\ truth l (f_cid f) = Some s /\ f_mtime f < now /\
-     snd (process truth csize cfg now es (p, f)) = set_key p (mkCE (f_cid f) s (f_mtime f) (csize (f_cid f))) es).
+     snd (process truth csize keyable cfg now es (p, f)) = set_key p (mkCE (f_cid f) s (f_mtime f) (csize (f_cid f))) es).
 Proof.
   intros cfg now es p f Hok Hfr. unfold process, ref_one. cbn [fst snd].
   destruct (lang_of cfg p) as [l|] eqn:El; [|cbn; auto].
   assert (Hmiss :
     let r := match truth l (f_cid f) with
-             | Some s => (Some (p, s), if store_ok (f_mtime f) now then set_key p (mkCE (f_cid f) s (f_mtime f) (csize (f_cid f))) es else es)
+             | Some s => (Some (p, s), if keyable p && store_ok (f_mtime f) now then set_key p (mkCE (f_cid f) s (f_mtime f) (csize (f_cid f))) es else es)
              | None => (None, es) end in
     fst r = match truth l (f_cid f) with Some s => Some (p, s) | None => None end /\
     (snd r = es \/ exists l0 s, Some l = Some l0 /\ truth l0 (f_cid f) = Some s /\ f_mtime f < now /\
        snd r = set_key p (mkCE (f_cid f) s (f_mtime f) (csize (f_cid f))) es)).
   { cbv zeta. destruct (truth l (f_cid f)) as [s|] eqn:Et; cbn [fst snd]; [|auto].
-    split; [reflexivity|]. unfold store_ok. destruct (f_mtime f <? now) eqn:Es; [|auto].
+    split; [reflexivity|]. destruct (keyable p); cbn [andb]; [|auto]. unfold store_ok. destruct (f_mtime f <? now) eqn:Es; [|auto].
     right. exists l, s. apply N.ltb_lt in Es. auto. }
   cbv zeta in Hmiss.
+  destruct (keyable p) eqn:Ek; [|exact Hmiss].
   destruct (lookup p es) as [e|] eqn:Elk; [|exact Hmiss].
   destruct (metadata_matches e (f_mtime f) (csize (f_cid f))) eqn:Em; [|exact Hmiss].
   cbn [fst snd]. split; [|auto].
   specialize (Hok e eq_refl). specialize (Hfr e eq_refl Em).
   destruct Hok as (l' & Hl' & Ht & _). rewrite El in Hl'. inversion Hl'; subst l'.
   rewrite <- Hfr, Ht. reflexivity.
+Qed.
+
+(* a path without a cache key (not valid UTF-8) is counted from scratch whatever the cache holds,
+   and leaves the cache as it is *)
+Lemma unkeyed_independent : forall cfg now es es' pf, keyable (fst pf) = false ->
+  fst (process truth csize keyable cfg now es pf) = fst (process truth csize keyable cfg now es' pf) /\
+  fst (process truth csize keyable cfg now es pf) = ref_one cfg pf /\
+  snd (process truth csize keyable cfg now es pf) = es.
+Proof.
+  intros cfg now es es' [p f] H. cbn [fst] in H. unfold process, ref_one. cbn [fst snd].
+  destruct (lang_of cfg p); [|auto]. rewrite H. cbn [andb].
+  destruct (truth n (f_cid f)); auto.
 Qed.
 
 (* all files of a list with distinct paths: the outputs are the from-scratch outputs, and every
@@ -197,10 +211,10 @@ Lemma process_all_spec : forall cfg now fs es,
   (forall p e f, In (p, f) fs -> lookup p es = Some e -> entry_ok cfg p e) ->
   (forall p e f, In (p, f) fs -> lookup p es = Some e ->
      metadata_matches e (f_mtime f) (csize (f_cid f)) = true -> ce_hash e = f_cid f) ->
-  fst (process_all truth csize cfg now es fs) = ref_out cfg fs /\
-  (forall q, lookup q (snd (process_all truth csize cfg now es fs)) = lookup q es \/
+  fst (process_all truth csize keyable cfg now es fs) = ref_out cfg fs /\
+  (forall q, lookup q (snd (process_all truth csize keyable cfg now es fs)) = lookup q es \/
      exists f l s, In (q, f) fs /\ lang_of cfg q = Some l /\ truth l (f_cid f) = Some s /\ f_mtime f < now /\
-       lookup q (snd (process_all truth csize cfg now es fs)) = Some (mkCE (f_cid f) s (f_mtime f) (csize (f_cid f)))).
+       lookup q (snd (process_all truth csize keyable cfg now es fs)) = Some (mkCE (f_cid f) s (f_mtime f) (csize (f_cid f)))).
 Proof.
   intros cfg now fs. induction fs as [|[p f] tl IH]; intros es Hnd Hok Hfr.
   - cbn. split; [reflexivity|]. intros q. now left.
@@ -209,7 +223,7 @@ Proof.
     destruct (process_spec cfg now es p f) as [Ho Hf].
     { intros e He. apply (Hok p e f); [now left|exact He]. }
     { intros e He Hm. apply (Hfr p e f); [now left|exact He|exact Hm]. }
-    destruct (process truth csize cfg now es (p, f)) as [o es1] eqn:Ep. cbn [fst snd] in Ho, Hf.
+    destruct (process truth csize keyable cfg now es (p, f)) as [o es1] eqn:Ep. cbn [fst snd] in Ho, Hf.
     assert (Hother : forall q, q <> p -> lookup q es1 = lookup q es).
     { intros q Hq. destruct Hf as [->|(l & s & _ & _ & _ & ->)]; [reflexivity|]. now apply lookup_set_other. }
     assert (Hnotin : forall q f', In (q, f') tl -> q <> p).
@@ -217,7 +231,7 @@ Proof.
     destruct (IH es1 Hnd') as [IHo IHf].
     { intros q e f' Hin He. rewrite (Hother q (Hnotin _ _ Hin)) in He. apply (Hok q e f'); [now right|exact He]. }
     { intros q e f' Hin He Hm. rewrite (Hother q (Hnotin _ _ Hin)) in He. apply (Hfr q e f'); [now right|exact He|exact Hm]. }
-    destruct (process_all truth csize cfg now es1 tl) as [os es2] eqn:Eall. cbn [fst snd] in *.
+    destruct (process_all truth csize keyable cfg now es1 tl) as [os es2] eqn:Eall. cbn [fst snd] in *.
     split.
     + rewrite Ho. destruct (ref_one cfg (p, f)); now rewrite IHo.
     + intros q. destruct (IHf q) as [Hsame|(f' & l & s & Hin & H1 & H2 & H3 & H4)].
@@ -231,7 +245,7 @@ Qed.
 (* the uncached run: a fresh in-memory cache never hits *)
 Lemma process_all_fresh_cache : forall cfg now fs es,
   NoDup (map fst fs) -> (forall p f, In (p, f) fs -> lookup p es = None) ->
-  fst (process_all truth csize cfg now es fs) = ref_out cfg fs.
+  fst (process_all truth csize keyable cfg now es fs) = ref_out cfg fs.
 Proof.
   intros cfg now fs es Hnd Hnone. apply process_all_spec; [exact Hnd| |].
   - intros p e f Hin He. rewrite (Hnone p f Hin) in He. discriminate.
@@ -239,7 +253,7 @@ Proof.
 Qed.
 
 Lemma run_uncached_ref : forall w excl now, NoDup (map fst (w_files w)) ->
-  run_uncached truth csize w excl now = ref_out (w_cfg w) (filter (in_scope excl) (w_files w)).
+  run_uncached truth csize keyable w excl now = ref_out (w_cfg w) (filter (in_scope excl) (w_files w)).
 Proof.
   intros w excl now Hnd. unfold run_uncached. apply process_all_fresh_cache.
   - now apply NoDup_filter_keys.
@@ -258,8 +272,8 @@ Qed.
 
 (* one invocation: transparent, and the invariant is re-established with the clock at now *)
 Lemma run_cached_spec : forall w excl now last, Inv w last -> last <= now ->
-  fst (run_cached truth csize chash w excl now) = run_uncached truth csize w excl now /\
-  Inv (snd (run_cached truth csize chash w excl now)) now.
+  fst (run_cached truth csize chash keyable w excl now) = run_uncached truth csize keyable w excl now /\
+  Inv (snd (run_cached truth csize chash keyable w excl now)) now.
 Proof.
   intros w excl now last [Hnd Hhash Hfresh Holder] Hle.
   rewrite run_uncached_ref by exact Hnd. unfold run_cached.
@@ -277,7 +291,7 @@ Proof.
   destruct (process_all_spec (w_cfg w) now fs es0 Hnd_fs) as [Hout Hframe].
   { intros p e f _ He. exact (Hok0 p e He). }
   { intros p e f Hin He Hm. exact (Hfresh0 p e f He (Hfs_in p f Hin) Hm). }
-  destruct (process_all truth csize (w_cfg w) now es0 fs) as [out es'] eqn:Eall. cbn [fst snd] in *.
+  destruct (process_all truth csize keyable (w_cfg w) now es0 fs) as [out es'] eqn:Eall. cbn [fst snd] in *.
   split; [exact Hout|].
   constructor; cbn [w_files w_cfg w_cache raw_entries hash_ok].
   - exact Hnd.
@@ -299,9 +313,9 @@ Definition time_ok (last : N) (o : op) : Prop := match op_time o with Some t => 
 
 Lemma step_spec : forall w last o, Inv w last -> time_ok last o ->
   racy_rename csize w o = false -> forgery w o = false ->
-  Inv (fst (step truth csize chash w o)) (next_last last o) /\
+  Inv (fst (step truth csize chash keyable w o)) (next_last last o) /\
   racy_write csize w o = false /\
-  (forall r, snd (step truth csize chash w o) = Some r -> fst r = snd r).
+  (forall r, snd (step truth csize chash keyable w o) = Some r -> fst r = snd r).
 Proof.
   intros w last o HI Ht Hrr Hfg. pose proof HI as [Hnd Hhash Hfresh Holder].
   destruct o as [p c t|p|p q|p q|c|k|k excl t]; cbn [step fst snd next_last op_time time_ok racy_write] in *.
@@ -379,7 +393,7 @@ Proof.
       * constructor; cbn [w_files w_cfg w_cache raw_entries]; [exact Hnd|now apply Hforeign|exact Hfresh|exact Holder].
   - (* Run *)
     destruct (run_cached_spec w excl t last HI Ht) as [Heq HI'].
-    destruct (run_cached truth csize chash w excl t) as [out w'] eqn:Er. cbn [fst snd] in *.
+    destruct (run_cached truth csize chash keyable w excl t) as [out w'] eqn:Er. cbn [fst snd] in *.
     split; [exact HI'|]. split; [reflexivity|]. intros r Hr. inversion Hr. cbn [fst snd]. exact Heq.
 Qed.
 
@@ -393,11 +407,11 @@ Proof.
 Qed.
 
 Lemma exec_spec : forall h w last, Inv w last -> monotone_from last h = true ->
-  any_along truth csize chash (racy_rename csize) w h = false ->
-  any_along truth csize chash forgery w h = false ->
-  Forall (fun r => fst r = snd r) (snd (exec truth csize chash w h)) /\
-  any_along truth csize chash (racy_write csize) w h = false /\
-  exists last', Inv (fst (exec truth csize chash w h)) last'.
+  any_along truth csize chash keyable (racy_rename csize) w h = false ->
+  any_along truth csize chash keyable forgery w h = false ->
+  Forall (fun r => fst r = snd r) (snd (exec truth csize chash keyable w h)) /\
+  any_along truth csize chash keyable (racy_write csize) w h = false /\
+  exists last', Inv (fst (exec truth csize chash keyable w h)) last'.
 Proof.
   induction h as [|o tl IH]; intros w last HI Hm Hrr Hfg.
   - cbn. split; [constructor|]. split; [reflexivity|]. now exists last.
@@ -407,8 +421,8 @@ Proof.
     destruct (step_spec w last o HI Ht Hrr1 Hfg1) as (HI1 & Hrw & Hr).
     destruct (IH _ _ HI1 Hm Hrr2 Hfg2) as (Hall & Hrw2 & Hlast).
     cbn [exec any_along]. rewrite Hrw, Hrw2.
-    destruct (step truth csize chash w o) as [w1 r] eqn:Es. cbn [fst snd] in *.
-    destruct (exec truth csize chash w1 tl) as [w2 rs] eqn:Ee. cbn [fst snd] in *.
+    destruct (step truth csize chash keyable w o) as [w1 r] eqn:Es. cbn [fst snd] in *.
+    destruct (exec truth csize chash keyable w1 tl) as [w2 rs] eqn:Ee. cbn [fst snd] in *.
     split; [|split; [reflexivity|exact Hlast]].
     destruct r as [x|]; [constructor; [apply Hr; reflexivity|exact Hall]|exact Hall].
 Qed.
@@ -420,8 +434,8 @@ Proof.
 Qed.
 
 Theorem transparent_modulo_known : forall h,
-  monotone_clock h = true -> has_racy_rename truth csize chash h = false -> has_forgery truth csize chash h = false ->
-  transparent truth csize chash h = true.
+  monotone_clock h = true -> has_racy_rename truth csize chash keyable h = false -> has_forgery truth csize chash keyable h = false ->
+  transparent truth csize chash keyable h = true.
 Proof.
   intros h Hm Hrr Hfg. unfold transparent.
   destruct (exec_spec h world0 0 Inv_world0 Hm Hrr Hfg) as (Hall & _ & _).
@@ -430,8 +444,8 @@ Proof.
 Qed.
 
 Theorem no_racy_write : forall h,
-  monotone_clock h = true -> has_racy_rename truth csize chash h = false -> has_forgery truth csize chash h = false ->
-  has_racy_write truth csize chash h = false.
+  monotone_clock h = true -> has_racy_rename truth csize chash keyable h = false -> has_forgery truth csize chash keyable h = false ->
+  has_racy_write truth csize chash keyable h = false.
 Proof.
   intros h Hm Hrr Hfg. destruct (exec_spec h world0 0 Inv_world0 Hm Hrr Hfg) as (_ & H & _). exact H.
 Qed.
@@ -439,8 +453,8 @@ Qed.
 (* the reachable-state invariant in words: in every reachable world, an entry of a loadable cache
    whose (mtime, size) match the file now at its path carries that file's true statistics *)
 Theorem cache_invariant : forall h,
-  monotone_clock h = true -> has_racy_rename truth csize chash h = false -> has_forgery truth csize chash h = false ->
-  let w := fst (exec truth csize chash world0 h) in
+  monotone_clock h = true -> has_racy_rename truth csize chash keyable h = false -> has_forgery truth csize chash keyable h = false ->
+  let w := fst (exec truth csize chash keyable world0 h) in
   forall es p e f, load_cache (w_cache w) (chash (w_cfg w)) = Some es ->
     lookup p es = Some e -> lookup p (w_files w) = Some f ->
     metadata_matches e (f_mtime f) (csize (f_cid f)) = true ->
@@ -457,10 +471,10 @@ Qed.
 (* ---------------------------------------------------------------- corruption, configuration hash *)
 Theorem corrupt_is_ignored : forall w excl now,
   load_cache (w_cache w) (chash (w_cfg w)) = None ->
-  fst (run_cached truth csize chash w excl now) = run_uncached truth csize w excl now.
+  fst (run_cached truth csize chash keyable w excl now) = run_uncached truth csize keyable w excl now.
 Proof.
   intros w excl now H. unfold run_cached, run_uncached. rewrite H.
-  destruct (process_all truth csize (w_cfg w) now [] (filter (in_scope excl) (w_files w))). reflexivity.
+  destruct (process_all truth csize keyable (w_cfg w) now [] (filter (in_scope excl) (w_files w))). reflexivity.
 Qed.
 
 (* a cache is loaded only if it carries the hash of the current [languages] table, and (injectivity)
